@@ -101,14 +101,16 @@ CLAIMS = {
          "(known finding F8). The blocking state in C16_no_leak is the simulator's own state (existential), connected to the action stream by the step rule; the single trace-level rule is decided "
          "on generated runs by the monitor, which replays the actions through fresh frameworks. Fixes F10 and F14 were found by this check.", "DESIGN.md section 0 and 4, C16"),
 
- "C17": ("PARTIAL at trace level. Theorems C17_slot (the slot holds the last SendPadding/BlockOutgoing for the machine with due = issue time + timeout; Cancel clears; others untouched), "
-         "C17_fire (a firing is a slot entry due exactly then; event time, machine and flags are the action's; the slot is cleared once), C17_only_by_firing, C17_earliest, and C17_not_past "
-         "(for every event of every returned trace no pending, not-overdue timer is earlier than the event: a non-superseded action fires before simulated time passes it). "
-         "The sentence 'every PaddingSent is caused by the most recent action' is decided by the replaying monitor on generated runs.", "DESIGN.md section 0 and 4, C17"),
+ "C17": ("Theorem C17_trace (whole runs on parsed traces recording all events): the returned trace is the event column of a history H (each processed event with the actions its side's framework "
+         "returned) in which every PaddingSent/BlockingBegin for machine m is caused by an earlier record of the same side holding a SendPadding/BlockOutgoing action for m, happens exactly at issue "
+         "time + timeout with the action's flags, with every later action-timer action for m (newer action or Cancel) before it issued no earlier than the completion time (not superseded before it "
+         "was due), and the assignment completion -> cause is injective (fires at most once). Plus the step contracts C17_slot, C17_fire, C17_only_by_firing, C17_earliest and C17_not_past (no event of "
+         "any trace is later than a timer still pending: an action that is not superseded fires before time passes it). Fix F14 was found by this check's monitor.", "DESIGN.md section 0 and 4, C17"),
 
- "C18": ("PARTIAL at trace level. Theorems C18_update (fold of the UpdateTimer contract: replace / none running / later expiry; Cancel clears), C18_begins (exactly one TimerBegin at that "
-         "instant per UpdateTimer that set the timer, nothing else), C18_end (TimerEnd at the stored expiry, once), C18_only_by_firing (a cancelled or superseded expiry can no longer fire), "
-         "C18_earliest, C18_not_past. Fix F7 (zero duration with no timer running) was found by this check.", "DESIGN.md section 0 and 4, C18"),
+ "C18": ("Theorem C18_trace (whole runs on parsed traces recording all events): in the history H every TimerBegin for m follows an UpdateTimer for m returned on that side at that same instant; every "
+         "TimerEnd for m is reported exactly at issue time + duration of an earlier UpdateTimer for m of that side, every later timer action for m before it (UpdateTimer or Cancel of the internal "
+         "timer) having been issued no earlier than that expiry or being a non-replacing update not reaching beyond it (never for a cancelled or superseded timer). Plus C18_update (fold of the "
+         "contract), C18_begins (exactly one TimerBegin at that instant per update that set the timer), C18_end, C18_only_by_firing, C18_earliest, C18_not_past. Fix F7 was found by this check.", "DESIGN.md section 0 and 4, C18"),
 
  "C19": ("PARTIAL (filters: theorem for max_trace_length = 0, the bounded case is checked as a prefix relation by the monitor). Totality: C19_no_assertion for total clocks, and C19_std_clock "
          "for the real std clock (the only possible panic is the Duration overflow inside an embedded framework, finding F6 of C01). Theorems C19_projection (filtered run = filter of the unfiltered run, Panic/OutOfFuel included), C19_no_assertion (sim_advanced never returns Panic: "
